@@ -244,21 +244,21 @@ def oracle (obs : List (List String × String)) : Verdict :=
             match (Spec.C09.check tr).find? (fun f => !f.isStale) with
             | some f => Verdict.fail (failReason f) tags
             | none =>
-              if Spec.C09.sizeResidueRacingDelete tr calls then
-                Verdict.fail s!"size-residue-racing-delete:op#{tr.length}" (tags ++ ["conc"])
-              else if Spec.C09.sizeStaleRacingRead tr calls then
-                Verdict.fail s!"size-stale-after-dedup:conc-op#{tr.length}" (tags ++ ["conc"])
-              else if Spec.C09.sizeRacy tr calls then
-                Verdict.fail s!"size-wrong-concurrent:op#{tr.length}" (tags ++ ["conc"])
-              else if Spec.C09.holdsOnConc tr calls then
-                let overl := calls.any fun a => calls.any fun b => !a.same b && a.inv < b.ret && b.inv < a.ret
-                { ok := true, nontrivial := true,
-                  tags := tags ++ ["conc"] ++ (if overl then ["conc:overlapping"] else []) }
-              else if Spec.C09.lostWriteRacingDelete tr calls then
-                Verdict.fail s!"lost-write-racing-delete:op#{tr.length}" (tags ++ ["conc"])
-              else if Spec.C09.lostWriteRacingInit tr calls then
-                Verdict.fail s!"lost-write-racing-init:op#{tr.length}" (tags ++ ["conc"])
-              else Verdict.fail s!"non-linearizable-history:op#{tr.length}" (tags ++ ["conc"])
+              let overl := calls.any fun a => calls.any fun b => !a.same b && a.inv < b.ret && b.inv < a.ret
+              let ctags := tags ++ ["conc"] ++ (if overl then ["conc:overlapping"] else [])
+              let at_ := s!"op#{tr.length}"
+              match Spec.C09.judgeConc tr calls with
+              | .ok => { ok := true, nontrivial := true, tags := ctags }
+              | .undecided => { ok := true, nontrivial := true, tags := ctags ++ ["conc:undecided"] }
+              | .sizeUndecided => { ok := true, nontrivial := true, tags := ctags ++ ["conc:size-undecided"] }
+              | .sizeResidueRacingDelete => Verdict.fail ("size-residue-racing-delete:" ++ at_) ctags
+              | .sizeStaleRacingRead => Verdict.fail ("size-stale-after-dedup:conc-" ++ at_) ctags
+              | .sizeWrongConcurrent => Verdict.fail ("size-wrong-concurrent:" ++ at_) ctags
+              | .lostWriteRacingDelete => Verdict.fail ("lost-write-racing-delete:" ++ at_) ctags
+              | .lostWriteRacingInit => Verdict.fail ("lost-write-racing-init:" ++ at_) ctags
+              | .readTruncatedRacingWrite => Verdict.fail ("read-truncated-racing-write:" ++ at_) ctags
+              | .nonLinearizable => Verdict.fail ("non-linearizable-history:" ++ at_) ctags
+              | .prefixFails => Verdict.fail "bad-line:prefix" ctags
         | _, _ => Verdict.fail "bad-answer:history"
       | _ => Verdict.fail "bad-line:ops-after-conc"
 
